@@ -308,7 +308,11 @@ pub fn log2_bucket(n: usize) -> u32 {
 /// `unit_panic_expected`: the model also answers `PANIC` for this op, so the *answer* is compared
 /// by the driver; the oracle failure is reported in any case (a panic is a C08 violation).
 pub fn run_and_record(w: &mut Worker, sink: &mut vcommon::Sink, line: String, tags: &str, input_len: usize) {
+    let t0 = std::time::Instant::now();
     let o = w.run(&line);
+    if std::env::var("VERIF_LOUD").is_ok() && t0.elapsed().as_millis() > 300 {
+        eprintln!("slow-case {:?} {} -> {} ms={} max_req={} site={}", t0.elapsed(), line, o.answer, o.ms, o.max_req, o.alloc_site);
+    }
     let mut tags = tags.to_string();
     let mut fails: Vec<String> = vec![];
     match o.answer.as_str() {
